@@ -271,6 +271,30 @@ func runC42(p *core.Prog, r *core.Report) {
 		}
 	}
 
+	// ---------------- R5 resume cursor of batched migration steps
+	r5 := r.Rule("C42.R5", "a batched migration step that resumes after a remembered key steps over that key only when the seek landed exactly on it (the key may have been deleted by the previous batch)", 1)
+	nRes := 0
+	for _, fn := range p.FuncsIn("pkg/local_object_storage/metabase") {
+		// migration steps: functions with the step signature (…, afterKey []byte, rem uint) (uint, []byte, error)
+		sig := fn.Signature
+		if sig.Params().Len() != 6 || sig.Results().Len() != 3 || sig.Results().At(0).Type().String() != "uint" {
+			continue
+		}
+		for _, s := range core.CallSites([]*ssa.Function{fn}, func(s core.Site) bool { return s.Name == "(*github.com/nspcc-dev/bbolt.Cursor).Next" }) {
+			if inCycle(s.Call.Block()) {
+				continue // the scan loop's own advance
+			}
+			nRes++
+			site := s.Call
+			core.CheckEffectsFn(p, r5, fn, core.EffectRule{Min: 1, Guards: []core.Guard{core.G("seek-hit-the-remembered-key", core.IsTrue, "bytes.Equal")}, Effect: func(_ *core.Prog, in ssa.Instruction) (string, bool) {
+				return "resume:Cursor.Next", in == site.(ssa.Instruction)
+			}})
+		}
+	}
+	if nRes == 0 {
+		r5.OKTrivial("metabase#migration-steps", "-", "no migration step resumes with an extra Cursor.Next")
+	}
+
 	// ---------------- R4 interruptible driver
 	r4 := r.Rule("C42.R4", "the batched driver checks the init context before every batch and advances its position only from a successful transaction", 2)
 	if dr := p.Func(mb + "updateContainersInterruptable"); dr == nil {
